@@ -1,8 +1,7 @@
 ---------------------------------- MODULE Crc16 ----------------------------------
 (* CRC-16/ARC as lhasa uses it (lib/crc16.c): reflected polynomial 0xA001, initial value 0,
    no final inversion.  BitStep/Step is the bitwise *definition*; Tab/TStep is the byte-table
-   form the C code implements.  The state machine at the bottom is the feeding discipline of
-   lha_crc16_buf: a 16-bit register updated piece by piece. *)
+   form the C code implements.  The feeding discipline (a register updated piece by piece) is module Crc16Feed. *)
 EXTENDS Naturals, Sequences, Bitwise, SequencesExt
 
 POLY == 40961                        \* 0xA001
@@ -25,14 +24,4 @@ Crc(bytes) == CrcFrom(0, bytes)
 \* fast form for long buffers in trace validation (justified by StepEqTStep, checked exhaustively)
 CrcFromT(tab, c, bytes) == FoldLeft(LAMBDA a, b : TStepWith(tab, a, b), c, bytes)
 
-------------------------------------------------------------------------------------
-(* Feeding state machine *)
-VARIABLES reg,      \* the caller's uint16_t *crc
-          fed       \* history: every byte fed so far (ghost)
-cvars == <<reg, fed>>
-
-CInit == reg = 0 /\ fed = <<>>
-Feed(piece) == /\ reg' = CrcFrom(reg, piece)
-               /\ fed' = fed \o piece
-PiecewiseEqWhole == reg = Crc(fed)
 ====================================================================================
